@@ -6,7 +6,47 @@ use qpz_world::{dummy_inputs, max_total_output, prove_leaf, random_deposit, rand
 use wormhole_aggregator::private_batch::prover::PrivateBatchProver;
 use wormhole_inputs::BytesDigest;
 
+/// Verifier artifacts of the SAME circuits built under ANOTHER circuit configuration (one more FRI query
+/// round): same shape, same gates, different common data and verifier key. "Other configs" in the property.
+pub fn build_other_config_artifacts(refs: &mut Refs) {
+    use plonky2::util::serialization::DefaultGateSerializer;
+    use wormhole_aggregator::private_batch::circuit::circuit_logic::PrivateBatchCircuit;
+    use wormhole_aggregator::public_batch::circuit::PublicBatchCircuit;
+    use zk_circuits_common::circuit::{wormhole_leaf_circuit_config, wormhole_private_batch_circuit_config, wormhole_public_batch_circuit_config};
+    let ser = |vd: &plonky2::plonk::circuit_data::VerifierCircuitData<zk_circuits_common::circuit::F, zk_circuits_common::circuit::C, { zk_circuits_common::circuit::D }>| -> (Vec<u8>, Vec<u8>) {
+        (vd.common.to_bytes(&DefaultGateSerializer).expect("serialise common"), vd.verifier_only.to_bytes().expect("serialise verifier-only"))
+    };
+    let mut cfg = wormhole_leaf_circuit_config();
+    cfg.fri_config.num_query_rounds += 1;
+    let leaf_alt = wormhole_circuit::circuit::circuit_logic::WormholeCircuit::new(cfg).unwrap_or_else(|e| qpz_core::harness_error(&format!("alt-config leaf circuit: {e:#}"))).build_verifier();
+    let (c, v) = ser(&leaf_alt);
+    refs.specials.insert("othercfg_leaf_common".into(), c);
+    refs.specials.insert("othercfg_leaf_verifier".into(), v);
+    let shapes: Vec<(usize, Option<usize>)> = refs.gens.iter().map(|g| (g.n, g.m)).collect();
+    for (n, m) in shapes {
+        let mut cfg = wormhole_private_batch_circuit_config();
+        cfg.fri_config.num_query_rounds += 1;
+        let key = format!("othercfg_private_n{n}_common");
+        if !refs.specials.contains_key(&key) {
+            let pb_alt = PrivateBatchCircuit::new(cfg, &refs.leaf.common, &refs.leaf.verifier_only, n).unwrap_or_else(|e| qpz_core::harness_error(&format!("alt-config private-batch circuit: {e:#}"))).build_verifier();
+            let (c, v) = ser(&pb_alt);
+            refs.specials.insert(key, c);
+            refs.specials.insert(format!("othercfg_private_n{n}_verifier"), v);
+        }
+        if let Some(m) = m {
+            let mut cfg = wormhole_public_batch_circuit_config();
+            cfg.fri_config.num_query_rounds += 1;
+            let pb = refs.pb[&n].clone();
+            let pub_alt = PublicBatchCircuit::new(cfg, pb.common.clone(), &pb.verifier_only, m, n).unwrap_or_else(|e| qpz_core::harness_error(&format!("alt-config public-batch circuit: {e:#}"))).build_verifier();
+            let (c, v) = ser(&pub_alt);
+            refs.specials.insert(format!("othercfg_public_n{n}_m{m}_common"), c);
+            refs.specials.insert(format!("othercfg_public_n{n}_m{m}_verifier"), v);
+        }
+    }
+}
+
 pub fn build_specials(refs: &mut Refs, seed: u64, with_pb: bool) {
+    build_other_config_artifacts(refs);
     let mut rng = Rng::new(qpz_core::rng::mix(seed, 0x5bec1a15));
     let deposits = (0..3).map(|_| random_deposit(&mut rng, 0)).collect();
     let block = Block::new(deposits, 7, &mut rng);
